@@ -38,6 +38,24 @@ def check(an, rep, tier):
                    'and order are mutually inverse', 'NumPy model']
     o = {'split': dict(specs.DEFAULT_SPLIT),
          'summary': dict(specs.DEFAULT_SUMMARY)}
+    # --- the merged core is a new array, also for a single QTT-core (mode
+    # size 2: nothing to contract) -- it must not be the caller's own core
+    for nq in (1, 2, 3):
+        items = [ARR((Poly.sym('q%d' % k), Poly.sym('b%d' % k),
+                      Poly.sym('q%d' % (k + 1))), 'f',
+                     org=frozenset({('E', 'Q_list', k)})) for k in range(nq)]
+        I = interp.Interp(prog, dict(o))
+        r = I.run_function(prog.func('core.core_qtt_to_tt'),
+                           {'Q_list': LIST(items)})
+        shared = sorted(l for l in (r.org if r.k in ('arr', 'top') else ())
+                        if isinstance(l, tuple) and l[0] == 'E')
+        rep.add('A-ret', 'core.core_qtt_to_tt', 'result of merging %d '
+                'core(s) is a fresh array' % nq,
+                'violation' if shared else ('ok' if r.k == 'arr' else
+                                            'unknown'),
+                '' if not shared else 'the returned core may be the very '
+                'array object the caller passed in (%s): later in-place '
+                'work on the result changes the input QTT-tensor' % shared)
     # --- layout of the merge
     for nq in (2, 3, 4):
         items = [ARR((Poly.sym('q%d' % k), Poly.sym('b%d' % k),
@@ -75,6 +93,33 @@ def check(an, rep, tier):
         G = ARR((Poly.sym('r1'), Poly.const(n), Poly.sym('r2')), 'f')
         I = interp.Interp(prog, dict(o))
         r = I.run_function(prog.func('core.core_tt_to_qtt'), {'G': G})
+        if n > 2:
+            # the left unfolding that enters the first truncated
+            # factorisation: its rows enumerate (left rank, mode) with the
+            # LEFT RANK fastest -- the order in which the last fold
+            # (r1, 2, -1) and the merge of core_qtt_to_tt read them
+            first = None
+            for (q_, args_, res_), meta_ in zip(I.call_log, I.call_meta):
+                if q_ in ('svd.matrix_svd', 'svd.matrix_skeleton') and \
+                        (meta_.get('caller') or '').startswith('core.'):
+                    first = args_.get('A') if isinstance(args_, dict) \
+                        else (args_[0] if args_ else None)
+                    break
+            want_l = (Poly.sym('r1'), Poly.const(n))
+            lay_ = first.lay[0] if first is not None and \
+                first.k == 'arr' and first.lay is not None else None
+            ok_l = lay_ is not None and len(lay_) == 2 and \
+                all(same(a_, b_) for a_, b_ in zip(lay_, want_l))
+            from ..layout import layouts_conflict
+            bad_l = lay_ is not None and not ok_l and \
+                layouts_conflict(lay_, want_l)
+            rep.add('S-layout', 'core.core_tt_to_qtt', 'rows of the first '
+                    'unfolding at mode size %d: left rank fastest' % n,
+                    'ok' if ok_l else ('violation' if bad_l else 'unknown'),
+                    '' if ok_l else 'the rows of the unfolding that is '
+                    'factorised first have the order %s (fastest first), '
+                    'expected %s: the binary digits of the mode would be '
+                    'mixed with the left rank index' % (lay_, want_l))
         st, detail = 'ok', ''
         if not (r.k == 'list' and r.items is not None and len(r.items) == q):
             st, detail = 'violation', 'returned %r, expected %d cores' % (r, q)
@@ -363,7 +408,8 @@ def check(an, rep, tier):
                 if f.module.name in ('core', 'act_one', 'grid')}
     _RP.check_param_forwarding(prog, rep, callers=_callers)
     rep.floor('O-sweep', 1, 'orthonormal right factors')
-    rep.floor('S-layout', 3, 'merge layouts')
+    rep.floor('A-ret', 3, 'fresh merged cores')
+    rep.floor('S-layout', 5, 'merge / split layouts')
     rep.floor('S-ret', 10, 'conversion results')
     rep.floor('S-pair', 2, 'index map pairing (order and digit dims; the column blocks only when both maps are written per mode)')
     rep.floor('P-domain', 12, 'power-of-two checks')
